@@ -3,7 +3,7 @@ from __future__ import annotations
 
 from .. import gen
 from ..common import q, uncps, rec
-from ..progprop import ProgramProperty, results, is_exc, init_step, Getter, have, MISSING
+from ..progprop import case_records, ProgramProperty, results, is_exc, init_step, Getter, have, MISSING
 
 
 class C03(ProgramProperty):
@@ -32,15 +32,17 @@ class C03(ProgramProperty):
         ps = gen.all_prefixes(recs)
         curies = [rng.choice(ps) + delim + gen.identifier(rng, delim) for _ in range(5)] + \
             gen.curie_probes(rng, recs, delim, 1)
-        steps = [init_step(0, recs, delim), q(0, "records"), q(0, "delimiter")]
+        steps = []
         for u in uris:
             steps += [q(0, "compress", u), q(0, "standardize_uri", u)]
         for c in curies:
             steps += [q(0, "expand", c), q(0, "standardize_curie", c)]
         us = gen.all_uris(recs)
         actually_pf = not any(a != b and b.startswith(a) for a in us for b in us)
+        steps, how = gen.build_steps(rng, recs, delim, steps)
+        _build_tag = "build=" + how
         return {"steps": steps, "uris": uris, "curies": curies, "delim": delim, "prefix_free": actually_pf,
-                "tags": [f"delim={delim!r}", "prefix-free" if actually_pf else "overlapping"]}
+                "tags": [f"delim={delim!r}", "prefix-free" if actually_pf else "overlapping", _build_tag]}
 
     def phase2(self, case, impl):
         g = Getter(case, impl)
@@ -101,11 +103,10 @@ class C03(ProgramProperty):
         if len(d) < 2:
             return False
         bad = []
-        for st in case["steps"]:
-            for r in st.get("records", []):
-                for p in [uncps(r["p"])] + [uncps(x) for x in r.get("ps", [])]:
-                    if d not in p and not gen.delim_ok(d, p):
-                        bad.append(p)
+        for r in case_records(case):
+            for p in [uncps(r["p"])] + [uncps(x) for x in r.get("ps", [])]:
+                if d not in p and not gen.delim_ok(d, p):
+                    bad.append(p)
         # failing instances must involve a CURIE that starts with such a prefix
         return bool(bad) and all(any(repr(p + d)[1:-1] in f for p in bad) for f in fails)
 
